@@ -11,7 +11,7 @@ CFG = dict(
     trusted=COMMON_TRUSTED + ["the contract (returns the context error; at most the operation in flight; goroutines exit) is the reference: there is no second implementation",
                               "hand-written model Cancel/Model.v of the run-id gate (interp.go stop/runid/newFrame/clone, program.go Execute, run.go run/runCfg/call/genFunctionWrapper/getFunc and the blocking channel operations), tied by behavioural correspondence through the step hook at every cancellation point",
                               "Go run-time goroutine dump (runtime.Stack) to decide whether a goroutine has exited or is parked for good"],
-    level_text="Coq theorems about an executable state machine of yaegi's run-id gate (generations of interpreter and frames, cancellation channels, phases of Execute, function literals, host-held wrappers): for all program tables, all histories of host actions, all schedules and all data (oracle bits), after stop() every thread performs at most one more operation, causes at most one more visible effect, threads started later do nothing, and every thread not stuck in an operation that cannot see the cancellation exits, init functions and main pending or not (C09_gate_partial, by induction over the schedule; the init-list defect is repaired and its witness is a regression theorem); refutation witnesses for the root frame revived by the next Execute, an already expired context, and function literals carrying an earlier evaluation's cancellation channel; the frame slot of go-statement literals (repaired, abe7a69) as a regression theorem. The model is tied to the code on every run: real yaegi (built with -tags verif) is parked by the step hook before operation k for every k of every program template, cancelled, released and observed; the observations are checked against the model inside Coq.",
+    level_text="Coq theorems about an executable state machine of yaegi's run-id gate (generations of interpreter and frames, cancellation channels, phases of Execute, function literals, host-held wrappers): for all program tables, all histories of host actions, all schedules and all data (oracle bits), after stop() every thread performs at most one more operation, causes at most one more visible effect, threads started later do nothing, and every thread not stuck in an operation that cannot see the cancellation exits, init functions and main pending or not (C09_gate_partial, by induction over the schedule; the init-list defect is repaired and its witness is a regression theorem); refutation witnesses for the root frame revived by the next Execute, an already expired context, function literals carrying an earlier evaluation's cancellation channel, and channel operations generated before the interpreter's first *WithContext call (cancellability is read at generation time); the frame slot of go-statement literals (repaired, abe7a69) as a regression theorem. The model is tied to the code on every run: real yaegi (built with -tags verif) is parked by the step hook before operation k (or inside the k-th native call) for every k of every program template, cancelled, optionally used for 1-3 further evaluations (Eval, EvalWithContext, import) while the goroutines are still parked, released and observed; a session matrix loads blocking code by Eval / EvalPath / import / EvalWithContext before or after the first *WithContext call; the observations are checked against the model inside Coq.",
     level_note="Trusted: Coq kernel + vm_compute, no axioms; harness and Go run-time; timing is not modelled (EvalWithContext latency and goroutine exit are observed with bounds of 20 s, remarks above 5 s). For multi-goroutine templates the model's prediction is the schedule-independent bound of the theorem; for single-goroutine templates the exact tick sequence.",
     technique="Coq proof by induction over schedules of a small-step machine + model/implementation correspondence at every cancellation point (step hook) evaluated in Coq",
     assumptions=["real-time behaviour (promptness) is observed, not proved",
